@@ -85,7 +85,7 @@ func Load(repo string, tags string) (*World, error) {
 	}
 	fset := token.NewFileSet()
 	cfg := &packages.Config{
-		Mode:  packages.LoadAllSyntax | packages.NeedModule,
+		Mode:  packages.LoadSyntax | packages.NeedModule,
 		Dir:   abs,
 		Fset:  fset,
 		Env:   env(),
@@ -129,7 +129,7 @@ func Load(repo string, tags string) (*World, error) {
 	}
 	sort.Slice(initial, func(i, j int) bool { return initial[i].PkgPath < initial[j].PkgPath })
 	w.Pkgs = initial
-	prog, ssaPkgs := ssautil.AllPackages(initial, ssa.InstantiateGenerics)
+	prog, ssaPkgs := ssautil.Packages(initial, ssa.InstantiateGenerics)
 	prog.Build()
 	w.Prog = prog
 	for i, p := range initial {
